@@ -16,7 +16,7 @@ ASSUMPTIONS = [
     "the truth about 'finally accepted' is the verdict returned by the live penalty strategy's update(), recorded by wrapping that bound method",
     "model time increments are compared with the step size used up to 64 eps of the magnitudes added (one floating-point addition)",
 ]
-TIERS = {"quick": {"worlds": 700, "wall": 150, "limit": 90.0}, "thorough": {"worlds": 15000, "wall": 1700, "limit": 200.0}}
+TIERS = {"quick": {"worlds": 1500, "wall": 150, "limit": 90.0}, "thorough": {"worlds": 15000, "wall": 1700, "limit": 200.0}}
 GATES = ("nontrivial", "runs.with_veto", "runs.with_path", "runs.time_limited", "fired.total", "foreign.pairs")
 
 
